@@ -36,6 +36,18 @@ def alive(pid):
 
 def main():
     case = json.loads(sys.argv[1])
+    import signal as _signal
+    if case.get('host') == 'sigchld_ignored':
+        # a host process that lets the kernel reap its children (daemons, some web servers): exit statuses are never delivered
+        _signal.signal(_signal.SIGCHLD, _signal.SIG_IGN)
+    hang_flag = None
+    if case.get('consume', 'full') != 'full' and case['consume'][0] == 'sigint':
+        import tempfile
+        try:
+            os.setpgrp()                  # this case and the workers it forks form their own process group (like a terminal job)
+        except OSError:
+            pass                          # already a session / group leader (the harness starts each case in its own session)
+        hang_flag = tempfile.mktemp(prefix='vp-eq-hang-')
     from playback.tape_recorder import TapeRecorder
     from playback.tape_cassettes.in_memory.in_memory_tape_cassette import InMemoryTapeCassette
     from playback.studio.equalizer import Equalizer, EqualityStatus, ComparatorResult, CompareExecutionConfig
@@ -60,6 +72,8 @@ def main():
                 if b == 'exit':
                     os._exit(3)
                 if b == 'hang':
+                    if hang_flag:
+                        open(hang_flag, 'w').close()
                     time.sleep(3600)
                 if b == 'hang_sigterm_ignored':
                     # replayed code that installed a graceful-shutdown hook: the worker survives a polite termination request
@@ -177,6 +191,17 @@ def main():
     error = None
     consume = case.get('consume', 'full')
     gen = eq.run_comparison()
+    if hang_flag:
+        import threading
+
+        def _ctrl_c():
+            # Ctrl-C in the terminal: SIGINT goes to the whole foreground process group while a replay hangs
+            t0 = time.monotonic()
+            while not os.path.exists(hang_flag) and time.monotonic() - t0 < 60:
+                time.sleep(0.02)
+            time.sleep(0.1)
+            os.killpg(os.getpgrp(), _signal.SIGINT)
+        threading.Thread(target=_ctrl_c, daemon=True).start()
     t_start = time.monotonic()
     finished = False
     try:
@@ -211,7 +236,9 @@ def main():
     except BaseException as ex:  # noqa
         error = 'run:' + repr(ex)
     t_end = time.monotonic() - t_start
-    if consume != 'full' and consume[0] in ('drop', 'raise'):
+    if hang_flag and os.path.exists(hang_flag):
+        os.remove(hang_flag)
+    if consume != 'full' and consume[0] in ('drop', 'raise', 'sigint'):
         del gen
         comp = None
         gc.collect()
